@@ -676,6 +676,35 @@ WASM_INTRINS = [
 ]
 
 
+NEON_INTRINS = [
+    ("nadd", [0], "vv"), ("nsub", [0], "vv"), ("nand", [0], "vv"), ("norr", [0], "vv"), ("neor", [0], "vv"), ("nbic", [0], "vv"),
+    ("nmovn", [0], "v"), ("nshrn", [1, 16, 31, 32], "v"), ("nmull", [0], "vv"), ("nshrq", [1, 32, 62, 63, 64], "v"), ("nrev", [0], "v"),
+    ("nsetl", [0, 1, 2, 3], "sv"), ("ntbl", [0], "vm"), ("next", [0, 1, 8, 15], "vv"), ("nshl", [0], "vC"),
+    ("ndup64", [0], "s"), ("ndup32", [0], "s"), ("ndup8", [0], "s"), ("nld64", [0], "ss"), ("nld8", [0], "v"),
+]
+
+
+def neon_intrin_cases(r, reps=3):
+    """single-intrinsic conformance of HH/Intrin/Neon.lean on the aarch64 Miri runner, incl. table indices >= 16 and USHL
+    counts in every regime (positive, >= 32, negative = right shift, <= -32)"""
+    b = B("nintrin", ["intrin", "neon"])
+    for name, imms, kinds in NEON_INTRINS:
+        for imm in imms:
+            for rep in range(reps):
+                ops = []
+                for k in kinds:
+                    if k == "v":
+                        ops.append(v128(r))
+                    elif k == "m":
+                        ops.append(int.from_bytes(bytes(r.choice((r.randrange(16), 0x80 | r.randrange(128), r.randrange(16, 128))) for _ in range(16)), "little"))
+                    elif k == "C":
+                        ops.append(sum((r.choice((0, 1, 5, 31, 32, 33, 127, 128, 0xE0, 0xE1, 0xFB, 0xFF, r.randrange(256))) | (r.getrandbits(24) << 8)) << (32 * i) for i in range(4)))
+                    else:
+                        ops.append(r.choice((0, 1, 0x7FFFFFFF, 0x80000000, 0xFFFFFFFF, r.getrandbits(32), r.getrandbits(64))))
+                b.op(f"intrin {name} {imm} " + " ".join(f"{o:032x}" for o in ops))
+    return b
+
+
 def wasm_intrin_cases(r, reps=4, swizzle=False):
     """single-intrinsic conformance of HH/Intrin/Wasm.lean on the wasm runners, incl. shift counts >= the lane width
     (taken modulo the width by the instruction) and, on the real engine, swizzle indices >= 16"""
